@@ -29,6 +29,8 @@ ASSUMPTIONS = ['ideal samples F^-1((i+1/2)/n) stand for "a sample from F" (KS di
 
 LS6 = [(0.0, 1.0), (0.0, 0.01), (0.0, 1000.0), (3.0, 2.0), (100.0, 1000.0), (-10.0, 4.0)]
 LS_EXTRA = [(1e6, 1.0), (0.0, 1e-9)]
+# supports far from the origin relative to their width (bounded / semi-bounded MLE families start from the data range)
+LS_OFFSET = {'beta': [(100.0, 2.0), (-300.0, 1.5), (1e4, 10.0), (-7.0, 0.05)], 'gamma': [(100.0, 2.0), (-300.0, 1.5)]}
 MEMBERS = {
     'gaussian': [()],
     'uniform': [()],
@@ -44,6 +46,9 @@ EXACT = ('gaussian', 'uniform', 'truncated')
 MLE = ('beta', 'gamma', 'student_t', 'loglaplace')
 
 
+EPS32 = float(np.finfo(np.float32).eps)
+
+
 def bounds(tier):
     return {'n': [200, 1000] if tier == 'quick' else [200, 1000, 5000],
             'members': {k: len(v) for k, v in MEMBERS.items()}, 'locscale_pairs': len(LS6), 'extra_pairs': len(LS_EXTRA)}
@@ -54,11 +59,14 @@ def cases(tier, seed):
     out = []
     for fam, mem in MEMBERS.items():
         for m in mem:
-            for ls in LS6 + (LS_EXTRA if fam in EXACT else []):
+            for ls in LS6 + (LS_EXTRA if fam in EXACT else []) + LS_OFFSET.get(fam, []):
                 for n in ns:
                     out.append(('recover', fam, m, ls, n))
             # E2 layer: the object was fitted on another member (and queried) before
             out.append(('recover-refit', fam, m, LS6[3], ns[0]))
+            # ... or on the constant 0 before; or was re-created from its own dict after an earlier fit
+            out.append(('recover-refit-const0', fam, m, LS6[0], ns[0]))
+            out.append(('recover-refit-roundtrip', fam, m, LS6[3], ns[0]))
     for bw in (None, 'scott', 'silverman', 0.3, 1.0):
         for weighted in (False, True):
             for ss in (None, 5, 20):
@@ -99,10 +107,29 @@ def run_case(case):
             pass
         tag += ' (object previously fitted on another member and queried)'
         r.hit('refit-history')
+    if kind_ == 'recover-refit-const0':
+        try:
+            model.fit(np.zeros(20))
+            model.cumulative_distribution(np.array([-1.0, 0.0, 1.0]))
+        except Exception:
+            pass
+        tag += ' (object previously fitted on the constant 0)'
+        r.hit('refit-history')
+    if kind_ == 'recover-refit-roundtrip':
+        # narrower data first, then the object is re-created from its dict, then fitted on the wider data of this case
+        narrow = np.asarray(gen.ppf(0.35 + 0.3 * A.midpoints(60)), float)
+        try:
+            model.fit(narrow)
+            model = type(model).from_dict(model.to_dict())
+        except Exception as e:
+            r.outcome(f'{fam}:roundtrip-prehistory-failed:{type(e).__name__}')
+        tag += ' (object fitted on the central 30 % of the law, re-created by from_dict(to_dict()), then fitted on this sample)'
+        r.hit('refit-history')
     try:
         model.fit(x.copy())
     except Exception as e:
-        r.add(f'n:{fam}')
+        if kind_ == 'recover':
+            r.add(f'n:{fam}')
         r.outcome(f'{fam}:fit-raised:{type(e).__name__}')
         if fam in EXACT:
             r.violation(f'{sig}:fit-raises:{type(e).__name__}', f'{tag}: fit raised {type(e).__name__}: {e}', case=case)
@@ -118,10 +145,24 @@ def run_case(case):
     d_emp = float(np.max(np.abs(F_fit - F_emp)))
     band = 3.27 / np.sqrt(n)
     ok = (d_true <= band) and (d_emp <= band) and np.all(np.isfinite(F_fit))
-    r.add(f'n:{fam}')
-    r.add(f'ok:{fam}', int(ok))
-    if not ok:
-        r['extra'][f'failpairs:{fam}:{loc}:{scale}'] = 1
+    if kind_ == 'recover':
+        # the 80 % rule of the MLE families is taken over the data-set alphabet itself; objects with a history are instead
+        # required to fit exactly like a fresh object (below)
+        r.add(f'n:{fam}')
+        r.add(f'ok:{fam}', int(ok))
+        if not ok:
+            r['extra'][f'failpairs:{fam}:{loc}:{scale}'] = 1
+    else:
+        fresh = _model(fam)
+        try:
+            fresh.fit(x.copy())
+            F_fresh = np.asarray(fresh.cumulative_distribution(pts.copy()), float)
+            r.tr(2)
+            if not np.allclose(F_fit, F_fresh, rtol=0, atol=1e-9, equal_nan=True):
+                r.violation(f'{sig}:refit-differs-from-fresh', f'{tag}: the fitted CDF differs from that of a fresh object fitted '
+                            f'on the same sample by {float(np.nanmax(np.abs(F_fit - F_fresh))):.3g}', case=case)
+        except Exception:
+            pass
     r['extra'][f'max_dist_{fam}_x1000'] = max(d_true, d_emp) * 1000 if np.isfinite(d_true) else 1e9
     r.outcome(f'{fam}:{"in-band" if ok else "out-of-band"}')
     wrange = float(x.max() - x.min())
@@ -188,6 +229,23 @@ def run_case(case):
         if not d2 <= band:
             r.violation(f'{sig}:user-bounds-recovery:{bucket}', f'{tag}: with user bounds sup|F_fit-F_emp|={d2:.4f} > {band:.4f}',
                         case=case, params=pp)
+        # only ONE of the two bounds supplied: the other comes from the data (max + EPSILON / min - EPSILON)
+        for which, kw in (('minimum-only', {'minimum': a}), ('maximum-only', {'maximum': b})):
+            one = U.TruncatedGaussian(**kw)
+            r.tr()
+            try:
+                one.fit(x.copy())
+                op = one.to_dict()
+                olo, ohi = op['loc'] + op['a'] * op['scale'], op['loc'] + op['b'] * op['scale']
+                want_lo = a if which == 'minimum-only' else x.min() - EPS32
+                want_hi = b if which == 'maximum-only' else x.max() + EPS32
+                r.ev()
+                if not (abs(olo - want_lo) <= e + 1e-9 * abs(want_lo) and abs(ohi - want_hi) <= e + 1e-9 * abs(want_hi)):
+                    r.violation(f'{sig}:user-bounds:{which}', f'{tag}: TruncatedGaussian({kw}) has support [{olo!r},{ohi!r}], '
+                                f'expected [{want_lo!r},{want_hi!r}]', case=case)
+            except Exception as ex:
+                r.violation(f'{sig}:user-bounds:{which}:raises', f'{tag}: TruncatedGaussian({kw}).fit raised '
+                            f'{type(ex).__name__}: {ex}', case=case)
         # the same bounds given positionally to a prototype that the selecting wrapper clones (get_instance)
         wrp = U.Univariate(candidates=[U.TruncatedGaussian(a, b)])
         r.tr()
@@ -251,6 +309,22 @@ def _kde(r, case):
     if bad.any():
         i = int(np.nonzero(bad)[0][0])
         r.violation(f'{sig}:density', f'{tag}: pdf({pts[i]!r})={got[i]!r} but the kernel estimate is {ref[i]!r}', case=case)
+    # the same estimate reached through the selecting wrapper (GaussianKDE as the only candidate): still the kernel estimate of
+    # the training data, not of a resample
+    if not ss and not weighted:
+        wrp = U.Univariate(candidates=[U.GaussianKDE(bw_method=bw)])
+        np.random.seed(4242)
+        r.tr()
+        wrp.fit(x.copy())
+        wstored = np.asarray(wrp.to_dict().get('dataset', []), float).ravel()
+        wgot = np.asarray(wrp.probability_density(pts.copy()), float)
+        r.ev(len(pts))
+        if not np.array_equal(wstored, x):
+            r.violation(f'{sig}:dataset:through-wrapper', f'{tag}: Univariate(candidates=[GaussianKDE]) stores a dataset of '
+                        f'length {len(wstored)} that is not the training data', case=case)
+        elif not np.all(np.abs(wgot - ref) <= 1e-7 * np.abs(ref) + 1e-300):
+            r.violation(f'{sig}:density:through-wrapper', f'{tag}: through Univariate(candidates=[GaussianKDE]) the pdf is not '
+                        f'the kernel estimate', case=case)
     r.hit(f'kde-bw:{bw}')
     r.outcome('kde')
     r['sample'] = {'kde': True, 'bw_method': bw, 'weighted': weighted, 'sample_size': ss, 'dataset': list(dspec)}
